@@ -18,7 +18,9 @@ EXTENDS Naturals, Integers, Sequences, FiniteSets, TLC
 CONSTANTS JmpCapacity,     \* slots in the setjmp stack (10 in UtestPlatform.cpp)
           HaveExceptions,  \* build with C++ exception support?
           MaxSet,          \* SetPointerPlugin::MAX_SET
-          Locs             \* redirectable pointer locations
+          Locs,            \* redirectable pointer locations
+          OrderStrict      \* TRUE: without shuffling, every repetition runs in the same (possibly reversed) order - the documented
+                           \* meaning of -b / -r (C12); FALSE: any permutation is accepted (all that C02 states)
 
 VARIABLES reg,       \* Seq([g, n, ign]) : group, name (sequences of characters), IGNORE_TEST?
           script,    \* [1..Len(reg) -> [setup, body, teardown : Phase] or "unset"]; Phase = [sets : Seq([loc, val]), ev : Seq(outcome)], one outcome per repetition (the last one repeats)
@@ -107,7 +109,7 @@ Start ==
 \* one repetition begins: optional shuffle (any permutation), fresh TestResult, testsStarted
 RepBegin(neworder) ==
     /\ pc = "repBegin" /\ rep < cfg.repeat
-    /\ IF cfg.shuffle THEN IsPerm(neworder, order) ELSE neworder = order
+    /\ IF cfg.shuffle \/ ~OrderStrict THEN IsPerm(neworder, order) ELSE neworder = order
     /\ order' = neworder /\ rep' = rep + 1 /\ pos' = 1 /\ grpStart' = TRUE /\ cnt' = Cnt0
     /\ g' = [Ghost0 EXCEPT !.allOk = g.allOk]
     /\ pc' = "loop" /\ Emit([op |-> "rep", n |-> rep + 1, order |-> neworder])
